@@ -53,7 +53,7 @@ Lemma step_ok f st o :
   spec_step f (abs st) o (choice_of f st o) = (abs (fst (step f st o)), fst (snd (step f st o))).
 Proof.
   intros HI. pose proof (inv_sel f st HI) as Hsel. pose proof Hsel as ((Hbal & Hsorted) & Hsz).
-  destruct o as [k v|pos k v|k|pos| | | |k|k|k| | |b| | ];
+  destruct o as [k v|pos k v|k|pos| | | |k|k|k| | |b| | | ];
     unfold step, spec_step, choice_of; cbv beta iota zeta; rewrite ?sel_abs, ?other_abs, ?next_abs.
   - (* insert(key, value) *)
     destruct (c_insert_ok f k v (m_sel st) (m_next st) Hsel) as (Hc' & Hsi).
@@ -106,15 +106,16 @@ Proof.
   - (* select the other container *)
     cbn [fst snd]. split; [exact HI|reflexivity].
   - (* copy *)
-    destruct f; cbn [fst snd]; [|auto].
-    destruct (c_copy_ok (m_other st) (m_next st) (inv_other _ _ HI)) as (Hc' & Hl & Hn).
-    destruct (c_copy FMap (m_other st) (m_next st)) as [c' n']. cbn [fst snd] in Hc', Hl, Hn |- *.
+    destruct (c_copy_ok f (m_other st) (m_next st) (inv_other _ _ HI)) as (Hc' & Hl & Hn).
+    destruct (c_copy f (m_other st) (m_next st)) as [c' n']. cbn [fst snd] in Hc', Hl, Hn |- *.
     split; [apply inv_set; auto|rewrite abs_set, Hl, Hn; reflexivity].
   - (* insert(other) *)
     destruct f; cbn [fst snd]; [|auto].
     destruct (c_bulk_ok (m_other st) (m_sel st) (m_next st) Hsel) as (Hc' & Hs).
     destruct (c_bulk FMap (m_other st) (m_sel st) (m_next st)) as [c' n']. cbn [fst snd] in Hc', Hs |- *.
     rewrite Hs. split; [apply inv_set; auto|rewrite abs_set; reflexivity].
+  - (* self-assignment *)
+    cbn [fst snd]. split; [exact HI|reflexivity].
 Qed.
 
 Lemma step_inv f st o : Inv f st -> Inv f (fst (step f st o)).
@@ -227,12 +228,106 @@ Proof.
   - replace (ekey e <=? k) with true by lia. cbn [negb app]. rewrite IH. reflexivity.
 Qed.
 
+(* ---- copy construction / operator=, both flavours ---------------------------------------------------------- *)
+Definition kv (e : entry) : Z * Z := (ekey e, eval e).
+
+Lemma renumber_kv n l : map kv (renumber n l) = map kv l.
+Proof. revert n. induction l as [|e l IH]; intros n; cbn [renumber map]; [reflexivity|]. rewrite IH. reflexivity. Qed.
+
+Lemma renumber_slots n l : map eslot (renumber n l) = seq n (length l).
+Proof. revert n. induction l as [|e l IH]; intros n; cbn [renumber map length seq]; [reflexivity|]. rewrite IH. reflexivity. Qed.
+
+Lemma s_sel_set sp l n : s_sel (s_set sp l n) = l.
+Proof. unfold s_sel, s_set. destruct (s_cur sp); reflexivity. Qed.
+Lemma s_other_set sp l n : s_other (s_set sp l n) = s_other sp.
+Proof. unfold s_other, s_set. destruct (s_cur sp); reflexivity. Qed.
+
+(* the copy holds the keys and values of the source in the source's order (so every run of equal
+   keys of a MultiMap keeps its order), its entries are new (slots n, n+1, ...), the source is untouched *)
+Lemma copy_sequence f ops :
+  let st := run f m_init ops in
+  let st' := fst (step f st OCopy) in
+  map kv (inorder (tr (m_sel st'))) = map kv (inorder (tr (m_other st))) /\
+  map eslot (inorder (tr (m_sel st'))) = seq (m_next st) (length (inorder (tr (m_other st)))) /\
+  inorder (tr (m_other st')) = inorder (tr (m_other st)) /\
+  sz (m_sel st') = sz (m_other st).
+Proof.
+  cbv zeta. set (st := run f m_init ops).
+  pose proof (run_inv f ops) as HI. fold st in HI.
+  pose proof (step_refines f st OCopy HI) as Hr. pose proof (step_inv f st OCopy HI) as HI'.
+  unfold spec_step in Hr. cbv beta iota zeta in Hr. rewrite other_abs, next_abs in Hr.
+  apply (f_equal fst) in Hr. cbn [fst] in Hr.
+  pose proof (f_equal s_sel Hr) as H1. pose proof (f_equal s_other Hr) as H2.
+  rewrite s_sel_set, sel_abs in H1. rewrite s_other_set, !other_abs in H2.
+  rewrite <- H1, <- H2. rewrite renumber_kv, renumber_slots. repeat split.
+  destruct (inv_sel _ _ HI') as (_ & Hsz'). destruct (inv_other _ _ HI) as (_ & Hsz).
+  rewrite Hsz', Hsz, !size_inorder, <- H1. clear. generalize (m_next st).
+  induction (inorder (tr (m_other st))) as [|e l IH]; intros n; cbn [renumber length]; [reflexivity|]. rewrite IH. reflexivity.
+Qed.
+
+(* ---- the relational input of the reference (position of a hinted MultiMap insert) ---------------------------- *)
+Lemma hint_choice_valid ops pos k v :
+  let st := run FMulti m_init ops in
+  valid_pos k (choice_of FMulti st (OHint pos k v)) (inorder (tr (m_sel st))) = true.
+Proof.
+  cbv zeta. set (st := run FMulti m_init ops).
+  pose proof (inv_sel _ _ (run_inv FMulti ops)) as Hsel. fold st in Hsel.
+  destruct (c_insert_hint_multi pos k v (m_sel st) (m_next st) Hsel) as (_ & Hv & _).
+  unfold choice_of. destruct (c_insert_hint FMulti pos k v (m_sel st) (m_next st)) as [[c' n'] rk]. exact Hv.
+Qed.
+
+Lemma spec_trace_not_bad f ops : ~ In RBad (fst (s_trace f s_init ops (m_choices f m_init ops))).
+Proof. rewrite trace_refines. cbn [fst]. apply trace_not_bad_init. Qed.
+
+(* ---- remove(key) removes exactly one entry: the first of the run of equal keys --------------------------------- *)
+Lemma count_list_cons k e l : count_list k (e :: l) = if ekey e =? k then S (count_list k l) else count_list k l.
+Proof. unfold count_list. cbn [filter]. destruct (ekey e =? k); reflexivity. Qed.
+
+Lemma count_remove_found k k' l : forall i,
+  find_list k l = Some i ->
+  count_list k' (remove_nth i l) = if k' =? k then pred (count_list k' l) else count_list k' l.
+Proof.
+  induction l as [|e l IH]; intros i; cbn [find_list]; [discriminate|].
+  destruct (ekey e =? k) eqn:E.
+  - intros [= <-]. cbn [remove_nth]. rewrite count_list_cons.
+    destruct (k' =? k) eqn:E2.
+    + replace (ekey e =? k') with true by lia. reflexivity.
+    + replace (ekey e =? k') with false by lia. reflexivity.
+  - destruct (find_list k l) as [j|]; cbn [option_map]; [|discriminate]. intros [= <-].
+    cbn [remove_nth]. rewrite !count_list_cons, (IH j eq_refl).
+    destruct (k' =? k) eqn:E2; [|reflexivity].
+    replace (ekey e =? k') with false by lia. reflexivity.
+Qed.
+
+Lemma remove_key_one f ops k :
+  let st := run f m_init ops in
+  let l := inorder (tr (m_sel st)) in
+  let l' := inorder (tr (m_sel (fst (step f st (ORemKey k))))) in
+  match find_list k l with Some i => l' = remove_nth i l | None => l' = l end /\
+  forall k', count_list k' l' = if k' =? k then pred (count_list k' l) else count_list k' l.
+Proof.
+  cbv zeta. set (st := run f m_init ops).
+  pose proof (run_inv f ops) as HI. fold st in HI.
+  pose proof (step_refines f st (ORemKey k) HI) as Hr.
+  unfold spec_step in Hr. cbv beta iota zeta in Hr. rewrite sel_abs, next_abs in Hr.
+  apply (f_equal fst) in Hr. cbn [fst] in Hr. apply (f_equal s_sel) in Hr. rewrite sel_abs in Hr.
+  rewrite <- Hr. clear Hr.
+  destruct (find_list k (inorder (tr (m_sel st)))) as [i|] eqn:E; cbn [fst].
+  - rewrite s_sel_set. split; [reflexivity|]. intros k'. apply count_remove_found. exact E.
+  - rewrite sel_abs. split; [reflexivity|]. intros k'. destruct (k' =? k) eqn:E2; [|reflexivity].
+    assert (k' = k) by lia. subst k'.
+    rewrite count_list_none; [reflexivity|]. apply find_list_none. exact E.
+Qed.
+
 (* ---- example histories used by the non-vacuity Examples of Properties_C01.v -------------------------------- *)
 Definition ex_ops_map : list op :=
   [OIns 5 50; OIns 3 30; OIns 8 80; OIns 1 10; OIns 4 40; OIns 7 70; OIns 9 90; OIns 2 20;
    OHint 0 0 1; OHint 99 10 100; OHint 3 3 33; ORemAt 4; ORemKey 5; OFind 9; OHas 5; OCount 3;
-   OFront; OBack; ORemFront; ORemBack; OSel true; OIns 100 1; OIns 4 44; OBulk; OSel false; OCopy].
+   OFront; OBack; ORemFront; ORemBack; OSel true; OIns 100 1; OIns 4 44; OBulk; OSel false; OCopy; OSelf].
 Definition ex_ops_multi : list op :=
   [OIns 5 1; OIns 5 2; OIns 3 3; OIns 5 4; OHint 1 5 5; OHint 0 3 6; OHint 9 7 7; OIns 3 8;
    OCount 5; OFind 5; ORemKey 5; OCount 5; OFind 3; ORemAt 2; OBack].
+(* MultiMap copy / assignment of a container with runs of equal keys, in both directions *)
+Definition ex_ops_multi_copy : list op :=
+  ex_ops_multi ++ [OSel true; OIns 9 9; OCopy; OIns 5 10; OSelf; OSel false; OCopy].
 
